@@ -9,6 +9,7 @@ import (
 	"encoding/json"
 	"fmt"
 	"reflect"
+	"regexp"
 	"sort"
 	"strings"
 	"testing"
@@ -137,8 +138,41 @@ func postYAML(p Post) yaml.MapSlice {
 	return o
 }
 
+// yamlAnchors: render request headers / call metadata as the documented YAML counterpart of
+// merge(local.x, {...}): a locals helper block with an anchored map holding a stale value for one key,
+// merged with "<<" and overridden by the real entries.
+var yamlAnchors bool
+
+func (d Doc) YAMLAnchors() (string, bool) {
+	yamlAnchors = true
+	defer func() { yamlAnchors = false }()
+	text := d.YAML()
+	if !strings.Contains(text, "ZVALIAS_") {
+		return "", false
+	}
+	re := regexp.MustCompile(`"?<<"?: ZVALIAS_(\w+)`)
+	text = re.ReplaceAllString(text, "<<: *$1")
+	re2 := regexp.MustCompile(`(?m)^  (zva\d+):`)
+	text = re2.ReplaceAllString(text, "  $1: &$1")
+	return text, true
+}
+
+func anchored(root *yaml.MapSlice, locals *yaml.MapSlice, n *int, m map[string]string) yaml.MapSlice {
+	full := strMap(m)
+	if !yamlAnchors || len(m) == 0 {
+		return full
+	}
+	name := fmt.Sprintf("zva%d", *n)
+	*n++
+	*locals = append(*locals, kv{Key: name, Value: yaml.MapSlice{kv{Key: full[0].Key, Value: "stale"}}})
+	return append(yaml.MapSlice{kv{Key: "<<", Value: "ZVALIAS_" + name}}, full...)
+}
+
 func (d Doc) YAML() string {
 	root := ymap()
+	var locals yaml.MapSlice
+	nAnchor := 0
+	defer func() { _ = locals }()
 	var srcs []yaml.MapSlice
 	for _, s := range d.Sources {
 		o := ymap(kv{"name", s.Name}, kv{"type", s.Type})
@@ -166,7 +200,7 @@ func (d Doc) YAML() string {
 	for _, r := range d.Requests {
 		o := ymap(kv{"name", r.Name}, kv{"method", r.Method}, kv{"uri", r.URI})
 		if len(r.Headers) > 0 {
-			o = append(o, kv{"headers", strMap(r.Headers)})
+			o = append(o, kv{"headers", anchored(&root, &locals, &nAnchor, r.Headers)})
 		}
 		if r.Tag != nil {
 			o = append(o, kv{"tag", *r.Tag})
@@ -199,7 +233,7 @@ func (d Doc) YAML() string {
 			o = append(o, kv{"tag", *c.Tag})
 		}
 		if c.Metadata != nil {
-			o = append(o, kv{"metadata", strMap(c.Metadata)})
+			o = append(o, kv{"metadata", anchored(&root, &locals, &nAnchor, c.Metadata)})
 		}
 		if c.Pres != nil {
 			var ps []yaml.MapSlice
@@ -233,6 +267,9 @@ func (d Doc) YAML() string {
 		scs = append(scs, o)
 	}
 	root = append(root, kv{"scenarios", scs})
+	if len(locals) > 0 {
+		root = append(yaml.MapSlice{kv{Key: "locals", Value: locals}}, root...)
+	}
 	b, err := yaml.Marshal(root)
 	if err != nil {
 		panic(err)
@@ -347,6 +384,25 @@ func mapExpr(i int, name string, keys []string) string {
 
 var fnMode bool
 
+// fnLiteral: function calls over literal values in a file that has no locals block at all.
+var fnLiteral bool
+
+func litList(l []string) string {
+	q := make([]string, len(l))
+	for i, s := range l {
+		q[i] = string(hclwrite.TokensForValue(cty.StringVal(s)).Bytes())
+	}
+	return "[" + strings.Join(q, ", ") + "]"
+}
+
+func litMap(m map[string]string, keys []string) string {
+	var el []string
+	for _, k := range keys {
+		el = append(el, fmt.Sprintf("%q = %s", k, string(hclwrite.TokensForValue(cty.StringVal(m[k])).Bytes())))
+	}
+	return "{" + strings.Join(el, ", ") + "}"
+}
+
 // redefine: the first locals block carries stale values which the second block defines again: the
 // latest definition of a local is the one in force.
 func (d Doc) hcl(locals, redefine bool) string {
@@ -399,7 +455,14 @@ func (d Doc) hcl(locals, redefine bool) string {
 		blk := b.AppendNewBlock("request", []string{r.Name}).Body()
 		blk.SetAttributeValue("method", cty.StringVal(r.Method))
 		blk.SetAttributeValue("uri", cty.StringVal(r.URI))
-		if locals && fnMode {
+		if fnLiteral && len(r.Headers) > 0 {
+			var ks []string
+			for k := range r.Headers {
+				ks = append(ks, k)
+			}
+			sort.Strings(ks)
+			blk.SetAttributeRaw("headers", exprTokens("merge("+litMap(r.Headers, ks[:1])+", "+litMap(r.Headers, ks[1:])+")"))
+		} else if locals && fnMode {
 			var ks []string
 			for k := range r.Headers {
 				ks = append(ks, k)
@@ -452,7 +515,9 @@ func (d Doc) hcl(locals, redefine bool) string {
 		if s.MinWait != nil {
 			blk.SetAttributeValue("min_waiting_time", cty.NumberIntVal(*s.MinWait))
 		}
-		if locals && fnMode && len(s.Requests) > 0 {
+		if fnLiteral && len(s.Requests) > 0 {
+			blk.SetAttributeRaw("requests", exprTokens("concat("+litList(s.Requests[:1])+", "+litList(s.Requests[1:])+")"))
+		} else if locals && fnMode && len(s.Requests) > 0 {
 			blk.SetAttributeRaw("requests", exprTokens(listExpr(i+d.fnSalt(), fmt.Sprintf("r%d", i), len(s.Requests))))
 		} else if locals {
 			blk.SetAttributeRaw("requests", hclwrite.TokensForFunctionCall("concat", hclwrite.TokensForTraversal(trav("local", fmt.Sprintf("r%d", i))), hclwrite.TokensForValue(cty.EmptyTupleVal)))
@@ -509,6 +574,9 @@ func plain(v reflect.Value, depth int, sb *strings.Builder) {
 		fmt.Fprintf(sb, "%s{", v.Type().Name())
 		for i := 0; i < v.NumField(); i++ {
 			f := v.Field(i)
+			if v.Type().Name() == "AmmoConfig" && v.Type().Field(i).Name == "Locals" {
+				continue // the YAML helper block that holds anchors: not part of the description
+			}
 			if !f.CanInterface() {
 				if f.CanAddr() {
 					f = reflect.NewAt(f.Type(), f.Addr().UnsafePointer()).Elem()
@@ -636,6 +704,17 @@ func compare(d Doc) (key string, err error) {
 		// the YAML form itself is not accepted: not a description "expressible in both syntaxes"
 		return "HARNESS", fmt.Errorf("HARNESS: the YAML rendering is rejected: %v %v\n%s", y.cfgErr, y.ammoErr, d.YAML())
 	}
+	if at, ok := d.YAMLAnchors(); ok {
+		ya := read("/d.yaml", at, grpc)
+		switch {
+		case ya.cfgErr != nil || ya.ammoErr != nil:
+			return "YAML-REJECTED|anchors", fmt.Errorf("YAML-REJECTED: the YAML form written with a locals block, anchors and merge keys is rejected: %v %v\n%s", ya.cfgErr, ya.ammoErr, at)
+		case ya.cfg != y.cfg:
+			return "CONFIG-DIFF|yaml-anchors", fmt.Errorf("CONFIG-DIFF: the YAML form with anchors differs from the plain YAML form:%s\n%s", firstDiff(y.cfg, ya.cfg), at)
+		case ya.ammo != y.ammo:
+			return "AMMO-DIFF|yaml-anchors", fmt.Errorf("AMMO-DIFF: ammo from the YAML form with anchors differs:%s", firstDiff(y.ammo, ya.ammo))
+		}
+	}
 	if nameTick%7 == 3 {
 		for _, name := range []string{"/D.YAML", "/d.Yaml", "/d.yml", "/D.YML"} {
 			y2 := read(name, d.YAML(), grpc)
@@ -647,13 +726,14 @@ func compare(d Doc) (key string, err error) {
 			}
 		}
 	}
-	for vi, variant := range []string{"plain", "locals", "locals-redefined", "PLAIN.HCL", "functions"} {
+	for vi, variant := range []string{"plain", "locals", "locals-redefined", "PLAIN.HCL", "functions", "functions-without-locals"} {
 		fnMode = vi == 4
+		fnLiteral = vi == 5
 		if fnMode {
 			fnTick++
 		}
 		text := d.hcl(vi == 1 || vi == 2 || vi == 4, vi == 2)
-		fnMode = false
+		fnMode, fnLiteral = false, false
 		name := "/d.hcl"
 		if vi == 3 {
 			// the syntax is chosen by the file extension in any letter case
